@@ -390,6 +390,8 @@ impl MapEntities for CeMap {
     }
 }
 #[derive(Event, Serialize, Deserialize, Clone, Copy, Debug)]
+pub struct ExtraEv(pub u32);
+#[derive(Event, Serialize, Deserialize, Clone, Copy, Debug)]
 pub struct CtTrig {
     pub seq: u32,
 }
@@ -729,6 +731,10 @@ pub fn register_pool(app: &mut App, cfg: &AppCfg, role: Role) {
         .add_client_event::<CeOrd>(Channel::Ordered)
         .add_mapped_client_event::<CeMap>(Channel::Ordered)
         .add_client_trigger::<CtTrig>(Channel::Ordered);
+    if cfg.proto_variant == 1 {
+        // A build that differs by one trailing registration (channel ids of the pool stay the same).
+        app.add_client_event::<ExtraEv>(Channel::Ordered);
+    }
 }
 
 pub fn build_app(cfg: &AppCfg, role: Role) -> App {
